@@ -3,6 +3,7 @@ package c09
 
 import (
 	"fmt"
+	"os"
 	"sync"
 	"testing"
 	"time"
@@ -252,6 +253,7 @@ func run(c Case) (pbt.Outcome, error) {
 		})
 	}
 	res := s.Run()
+	lastOptions = res.Options
 	tally.VerifSetHooks(nil)
 	log.OnCall = nil
 	for _, p := range res.Panics {
@@ -372,5 +374,53 @@ func TestRace(t *testing.T) {
 		// the schedule is not part of the case: a replay (and, after a first failure, every shrink
 		// candidate) is run up to Retries times and fails if any run fails
 		Retries: 60,
+	})
+}
+
+// ---------------------------------------------------------------- bounded-exhaustive micro-scenarios
+
+var lastOptions []int
+
+// TestExhaustive enumerates EVERY schedule with at most 6 (quick) / 9 (thorough)
+// preemptions of deterministic micro-scenarios: two (and, at a lower bound,
+// three) threads making the first use of ONE metric or child scope on the root
+// of a single-shard registry (no report pass runs concurrently, so no map
+// iteration order is involved), plain and cached.
+func TestExhaustive(t *testing.T) {
+	prop := pbt.Prop[Case]{
+		ID: "C09", Name: "exhaustive",
+		Rule: "bounded-exhaustive mode: ALL schedules with at most 6 (quick) / 9 (thorough) preemptions (4 / 7 with three threads) of deterministic micro-scenarios {two or three threads make the first use of the same counter, gauge, timer, histogram, SubScope child or Tagged child on the root of a one-shard registry and record through it; plain and cached}, enumerated depth-first over the verif yield points and lock probes of the get-or-create paths; same oracle as the generated mode (one object per identity, Allocate at most once, conservation, no panic, exact deadlock). Non-trivial: a get-or-create window was preempted.",
+		Run:  run,
+	}
+	bound := 6
+	if os.Getenv("VERIF_TIER") == "thorough" {
+		bound = 9
+	}
+	pbt.MainEnum(t, prop, func(emit func(c Case) bool) bool {
+		all := true
+		for _, cached := range []bool{false, true} {
+			for _, k := range []Req{{K: "counter"}, {K: "gauge"}, {K: "timer"}, {K: "histogram"}, {K: "child", N: 0}, {K: "child", N: 1}} {
+				for _, nthreads := range []int{2, 3} {
+					base := Case{Cached: cached, Shards: 1}
+					for i := 0; i < nthreads; i++ {
+						r := k
+						r.D = int64(i + 1)
+						base.Threads = append(base.Threads, []Req{r})
+					}
+					b := bound
+					if nthreads == 3 {
+						b = bound - 2
+					}
+					_, ex := sched.Enumerate(b, 400000, func(prefix []int) ([]int, bool) {
+						c := base
+						c.Sched = append([]int(nil), prefix...)
+						ok := emit(c)
+						return lastOptions, ok
+					})
+					all = all && ex
+				}
+			}
+		}
+		return all
 	})
 }
